@@ -18,7 +18,7 @@ from ..asdfio import write_asdf
 
 LEVEL = 'exploration'
 RULE = (
-    'invocations over 1-5 generated ASDF files x 1-6 fields in permuted/repeated order; dtypes i2,i4,i8,u8,f4,f8; shapes (N,), (N,3), (N,2,2), empty (0,), (0,3); none/zlib/blsc compression; '
+    'invocations over 1-5 generated ASDF files x 1-6 fields in permuted/repeated order; dtypes i2,i4,i8,u8,f4,f8; shapes (N,), (N,3), (N,2,2), empty (0,), (0,3); none/zlib/blsc compression; nthread 1..16; every 10th invocation with multi-megabyte fields over files of very unequal size; '
     'a missing file at each position; a field missing from the first / last / some files. A case = one invocation whose whole output byte stream is parsed and compared. '
     'non-trivial = distinct (nfiles, field list, dtypes/shapes, compression, entry point) with >= 2 files or >= 2 fields'
 )
@@ -46,13 +46,15 @@ class RecordingPipe(io.BytesIO):
         self.closed_called = True  # keep the buffer readable
 
 
-def make_files(rng, d, nfiles, fields_spec, comp, tag):
+def make_files(rng, d, nfiles, fields_spec, comp, tag, sizes=None):
     """fields_spec: name -> (dtype, tail shape).  Returns file names and arrays[file][field]."""
     fns, arrs = [], []
     for i in range(nfiles):
         data = {}
         for name, (dt, tail) in fields_spec.items():
             n = int(rng.choice([0, 1, 7, 300]))
+            if sizes is not None:
+                n = sizes[i % len(sizes)]
             a = rng.integers(-1000, 1000, (n,) + tail).astype(dt) if dt[0] != 'u' else rng.integers(0, 1 << 40, (n,) + tail).astype(dt)
             data[name] = a
         fn = os.path.join(d, f'{tag}_{i}.asdf')
@@ -126,7 +128,18 @@ def check(run):
             nf = int(rng.integers(1, 7))
             spec = {f'f{j}': (DTS[int(rng.integers(0, 6))], SHAPES[int(rng.integers(0, 3))]) for j in range(nf)}
             comp = [None, 'zlib', 'blsc'][k % 3]
-            fns, arrs = make_files(rng, d, nfiles, spec, comp, f'c{k}')
+            # multi-megabyte fields whose files differ in size by orders of magnitude (a large compressed file followed by tiny ones, or the
+            # reverse): whatever reads or decompresses them, the payloads must still come out in argument order
+            big = k % 10 == 4
+            sizes = None
+            if big:
+                nfiles = max(nfiles, 3)
+                spec = {n: spec[n] for n in list(spec)[:2]}
+                nf = len(spec)
+                sizes = [[600000, 3, 50], [5, 600000, 2], [300000, 300000, 300000]][(k // 10) % 3]
+                comp = ['zlib', 'blsc', None][(k // 10) % 3] if k % 20 == 4 else comp
+                run.count('multi_megabyte_invocations')
+            fns, arrs = make_files(rng, d, nfiles, spec, comp, f'c{k}', sizes=sizes)
             names = list(spec)
             if k % 6 == 3 and nfiles >= 1:
                 # the same file may be named more than once: it is concatenated each time, in argument order
@@ -139,7 +152,7 @@ def check(run):
             fields = [names[int(i)] for i in rng.permutation(nf)[:m]]
             if k % 7 == 0:
                 fields = fields + [fields[0]]  # repeated field
-            use_cli = k < ncli or (k % max(1, ninv // ncli) == 0 and not run.quick)
+            use_cli = k < ncli or (k % max(1, ninv // ncli) == 0 and not run.quick) or k % 40 == 24
             desc = dict(case=k, nfiles=nfiles, fields=fields, spec={n: [spec[n][0], list(spec[n][1])] for n in fields}, compression=comp, entry='cli' if use_cli else 'unpack_to_pipe')
             run.progress(desc)
             run.ev()
@@ -151,6 +164,8 @@ def check(run):
                 cmd = [sys.executable, '-m', 'abacusnbody.data.pipe_asdf'] + fns
                 for f in fields:
                     cmd += ['-f', f]
+                if k % 3 == 1:
+                    cmd += ['--nthread', str([1, 3, 8][(k // 3) % 3])]
                 p = subprocess.run(cmd, capture_output=True, env=env, timeout=120)
                 run.count('cli_invocations')
                 if p.returncode != 0:
@@ -164,7 +179,7 @@ def check(run):
 
                     a_fns = [pathlib.Path(f) for f in fns] if k % 4 == 1 else (tuple(fns) if k % 4 == 2 else fns)
                     a_fields = tuple(fields) if k % 3 == 1 else fields
-                    PA.unpack_to_pipe(a_fns, a_fields, pipe=pipe, verbose=False)
+                    PA.unpack_to_pipe(a_fns, a_fields, pipe=pipe, verbose=False, **({} if k % 2 else dict(nthread=[1, 2, 8, 16][(k // 2) % 4])))
                 except Exception as e:
                     run.violation('pipe-raises-' + type(e).__name__, dict(error=str(e)[:200], **desc))
                 else:
